@@ -1,4 +1,4 @@
-SPECIFICATION Spec
+SPECIFICATION SpecCanon
 CONSTANTS
   Meshes <- MeshesBig
   EmitMode = "none"
@@ -13,6 +13,4 @@ INVARIANT InvRoundTrip
 INVARIANT InvSlice
 INVARIANT InvDofToUnknown
 INVARIANT InvHess
-INVARIANT InvHessBagTrue
-PROPERTY StepMaskIsDecl
 CHECK_DEADLOCK FALSE
